@@ -736,8 +736,11 @@ class FloatMethod(DeserializationMethod):
     def deserialize(self, data: Any) -> Any:
         if isinstance(data, float):
             return data
-        elif isinstance(data, int):
-            return float(data)
+        elif isinstance(data, int) and not isinstance(data, bool):
+            try:
+                return float(data)
+            except OverflowError:
+                raise ValidationError("integer too large to be converted to float")
         else:
             raise bad_type(data, float)
 
